@@ -174,7 +174,7 @@ def huge_sparse(rng, n=None, density=None):
             "bi": [list(e) for e in sorted(bi)], "hostile": "huge-sparse"}
 
 
-def embed_wide(gd, rng, total):
+def embed_wide(gd, rng, total, p_di=None, p_bi=None):
     """``gd`` (the core) embedded in a graph on ``total`` nodes: padding nodes W0.. are interleaved into the core's
     topological order and wired to the core and to each other at random (acyclic).  -> (wide description, padding names)"""
     pad = [f"W{i}" for i in range(total - len(gd["nodes"]))]
@@ -186,7 +186,8 @@ def embed_wide(gd, rng, total):
     pos = {v: i for i, v in enumerate(order)}
     di = [list(e) for e in gd["di"]]
     bi = [list(e) for e in gd["bi"]]
-    p_di, p_bi = rng.choice((0.1, 0.2, 0.3)), rng.choice((0.03, 0.08, 0.15))
+    if p_di is None:
+        p_di, p_bi = rng.choice((0.1, 0.2, 0.3)), rng.choice((0.03, 0.08, 0.15))
     for w in pad:
         for v in order:
             if v == w or (v in pad and pos[v] < pos[w]):
